@@ -26,10 +26,12 @@ RULE = ('One case = a generated chart (sends with and without delay, notify) + i
         'delivered receives everything that happens afterwards; every documented attribute is read as event.<name> (None values too); sent '
         'events carry an object of the context that monitors must get uncopied; two equal-comparing listener objects are both served; '
         'nothing runs in a step before step started was delivered; a deep copy of a monitored interpreter keeps its monitors in time; a '
-        'fifth of the cases use a clock that grows at every reading.')
+        'fifth of the cases use a clock that grows at every reading. (5) a property statechart bound in the plain form that arms a timeout '
+        '(a delayed event sent to itself) on its first meta-event of a random kind must fail exactly while the first meta-event whose step '
+        'time reaches the deadline is delivered.')
 ASSUMPTIONS = ["the undocumented, deprecated 'delayed event sent' meta-event is filtered out before comparison",
                'the listener is attached before the property statechart so that it records meta-event k before the property fails']
-REQUIRED_COUNTERS = ['identity_of_parameters_checked', 'listeners_attached_mid_step', 'attribute_reads_checked', 'cases_with_ticking_clock', 'monitored_copies_checked', 'sent_predicate_reads', 'deprecated_bind_form', 'stream_steps_checked', 'meta_events_checked', 'failfast_runs', 'noninterference_steps',
+REQUIRED_COUNTERS = ['deadline_due', 'identity_of_parameters_checked', 'listeners_attached_mid_step', 'attribute_reads_checked', 'cases_with_ticking_clock', 'monitored_copies_checked', 'sent_predicate_reads', 'deprecated_bind_form', 'stream_steps_checked', 'meta_events_checked', 'failfast_runs', 'noninterference_steps',
                      'streams_with_all_kinds_and_notify', 'property_time_checks', 'kind_event sent', 'kind_notify',
                      'delayed_sends_seen']
 KINDS = ['step started', 'step ended', 'event consumed', 'event sent', 'state exited', 'state entered', 'transition processed']
@@ -58,6 +60,19 @@ def failing_property(names):
     sc.add_state(FinalState('f'), 'proot')
     for n in names:
         sc.add_transition(Transition('w', 'f', event=n, guard='HIT()'))
+    return sc
+
+
+def deadline_property(arm, delay):
+    """A timeout written the documented way: on its first meta-event `arm` the property statechart sends itself a delayed event;
+    when that event is due it becomes final.  It has no transition for the other meta-events, and no eventless one."""
+    sc = Statechart('deadline')
+    sc.add_state(CompoundState('proot', initial='w'), None)
+    sc.add_state(BasicState('w'), 'proot')
+    sc.add_state(BasicState('armed'), 'proot')
+    sc.add_state(FinalState('f'), 'proot')
+    sc.add_transition(Transition('w', 'armed', event=arm, action="send('deadline', delay=%r)" % delay))
+    sc.add_transition(Transition('armed', 'f', event='deadline'))
     return sc
 
 
@@ -224,6 +239,7 @@ def run_case(acc, rnd, tier, case):
     r = Runner(it, tmap, log=pr.log)
     base_obs = []
     meta_per_step = []          # number of documented meta-events emitted in each step
+    meta_seq = []               # (step, name, step time) of every documented meta-event of the fully checked steps
     kinds_seen = set()
     k = 0
     for op in script:
@@ -325,6 +341,7 @@ def run_case(acc, rnd, tier, case):
         acc.count('stream_steps_checked')
         acc.count('meta_events_checked', len(mexp))
         meta_per_step.append(len(mexp))
+        meta_seq.extend((k, n, t0) for n, d in mexp)
         k += 1
     # a deep copy of the monitored interpreter takes its monitors along: their clocks follow the copy, not the original
     if rnd.random() < 0.3:
@@ -462,6 +479,64 @@ def run_case(acc, rnd, tier, case):
                           "been detached, the next execute_once delivered no 'step started' to the listener that is still attached" % kth, w)
             return
         acc.nontrivial((dg, kth), cls='failfast')
+    # ---- (5) a property statechart that progresses on a delayed event it sent to itself (a timeout) ---------------------------
+    # bound in the plain documented form; it is executed at every meta-event, so it turns final at the first meta-event whose
+    # step time has reached the deadline - whatever that meta-event is called
+    if meta_seq and not ticking:
+        arm = rnd.choice(sorted(set(n for (_, n, _) in meta_seq)))
+        delay = rnd.choice((0, 1, 1, 2, 3, 5, 8))
+        i_arm = next(j for j, (_, n, _) in enumerate(meta_seq) if n == arm)
+        due = meta_seq[i_arm][2] + delay
+        j_due = next((j for j in range(i_arm if delay == 0 else i_arm + 1, len(meta_seq)) if meta_seq[j][2] >= due), None)
+        sc5, tmap5 = build.build_api(ch, coder=CODER10)
+        pr5 = Probes(val=make_val(valseed, p_true))
+        it5 = Interpreter(sc5, initial_context=pr5.context(REF=REF), ignore_contract=no_contracts)
+        it5.attach(pr5.listener())
+        it5.bind_property_statechart(deadline_property(arm, delay))
+        r5 = Runner(it5, tmap5, log=None)
+        k5, seen5, outcome = 0, 0, None
+        last_full = meta_seq[-1][0]
+        for op in script:
+            if op[0] != 'step':
+                r5.apply(op)
+                continue
+            if k5 > last_full:
+                break
+            pr5.stepno = k5
+            del pr5.log[:]
+            o = r5.apply(op)
+            ms = [e for e in norm_log(pr5.log) if e[0] == 'M']
+            if o[0] == 'raise':
+                outcome = (k5, r5.last_error, seen5 + len(ms))
+                break
+            seen5 += len(ms)
+            k5 += 1
+        acc.count('deadline_properties_checked')
+        w = dict(wit, arm=arm, delay=delay, armed_at=i_arm, due_at=j_due)
+        if j_due is None:
+            acc.count('deadline_never_due')
+            if outcome is not None and isinstance(outcome[1], PropertyStatechartError):
+                acc.violation('C10:timeout-property-failed-early', "a property statechart that arms a %r-second timeout on its first '%s' "
+                              '(meta-event %d, time %r) became final at meta-event %d although no later meta-event of the run had a step '
+                              'time >= %r' % (delay, arm, i_arm + 1, meta_seq[i_arm][2], outcome[2], due), w)
+                return
+        else:
+            acc.count('deadline_due')
+            if outcome is None or not isinstance(outcome[1], PropertyStatechartError):
+                acc.violation('C10:timeout-property-not-raised', "a property statechart arms a %r-second timeout on its first '%s' (meta-event "
+                              "%d, time %r); meta-event %d ('%s', step %d, time %r) is the first one delivered when the timeout is due, but "
+                              '%s' % (delay, arm, i_arm + 1, meta_seq[i_arm][2], j_due + 1, meta_seq[j_due][1], meta_seq[j_due][0],
+                                      meta_seq[j_due][2], 'no call raised' if outcome is None else 'step %d raised %s'
+                                      % (outcome[0], type(outcome[1]).__name__)), w)
+                return
+            if outcome[2] != j_due + 1:
+                acc.violation('C10:timeout-property-wrong-moment', "a property statechart arms a %r-second timeout on its first '%s' (meta-event "
+                              "%d, time %r): it must become final while meta-event %d ('%s', step %d, time %r) is delivered, "
+                              'PropertyStatechartError came in step %d after %d meta-events'
+                              % (delay, arm, i_arm + 1, meta_seq[i_arm][2], j_due + 1, meta_seq[j_due][1], meta_seq[j_due][0],
+                                 meta_seq[j_due][2], outcome[0], outcome[2]), w)
+                return
+            acc.nontrivial((dg, 'deadline', arm, delay), cls='timeout')
     # ---- (4) a listener / property statechart attached while a step is under way ------------------------------------
     # it is attached from then on: it receives every meta-event that happens afterwards, those of the same step included
     if M >= 2:
